@@ -388,6 +388,8 @@ class GateMonitor(WireTracker):
             if rcode == 2001:
                 vs.append(("ce-outcome:CER-without-origin-host-answered-2001", f"{f!r}"))
             return vs
+        if variant == "badip":
+            return vs           # outcome not specified; the gate and the answer monitor still apply
         # known peer sharing an application, or a relay
         if rcode != 2001:
             vs.append((f"ce-outcome:acceptable-CER-({variant}):answered-{rcode}-instead-of-2001", f"{f!r}"))
